@@ -522,6 +522,13 @@ Proof.
     rewrite E, dec_enc_strs. reflexivity.
 Qed.
 
+Lemma rows_pv_lines rows :
+  n_map_opt line_of (flat_map row_pv rows) = Some (render_rows numfmt o (map rstate_of tvs0) rows).
+Proof.
+  unfold render_rows. induction rows as [|r rows IH]; [reflexivity|]. cbn [flat_map].
+  apply n_map_opt_app; [apply row_pv_lines|exact IH].
+Qed.
+
 Theorem render_rows_src : forall rows, exists vs,
   call_function call_ref PT render_rows_fn [PList (map enc_rrow rows); PList (map rend tvs0); ctx] = Ok (PList vs) /\
   n_map_opt line_of vs = Some (render_rows numfmt o (map rstate_of tvs0) rows).
